@@ -436,7 +436,10 @@ func familyLeaf(r *rand.Rand, env map[string]string) *M {
 	val := env[v]
 	if _, isV := refParseVersion(val); isV {
 		near := []string{val, val + ".0", val + ".1", "3.10", "3.8", "3.9", "3.9.6", "3.9.7", "3", "4", "3.09", "3.9.*"}
-		return stdLeaf(v, pick(r, "==", "!=", "<", "<=", ">", ">=", "~="), pick(r, near...), r.Intn(4) == 0)
+		if r.Intn(2) == 0 {
+			near = paddedVersionLits()
+		}
+		return stdLeaf(v, pick(r, "==", "!=", "<", "<=", ">", ">=", "~="), pick(r, near...), r.Intn(3) == 0)
 	}
 	switch r.Intn(3) {
 	case 0:
@@ -497,6 +500,9 @@ func perturbLeaf(r *rand.Rand, env map[string]string, l *M) string {
 			pool = litsExtra
 		case versionVar:
 			pool = append(append([]string{}, litsVersion...), litsAltVersion...)
+			if r.Intn(2) == 0 {
+				pool = paddedVersionLits()
+			}
 		}
 		old := l.Lit
 		for try := 0; try < 4 && l.Lit == old; try++ {
